@@ -523,6 +523,14 @@ def map_results_are_materialised(ctx):
                     ctx.ok('%s#_map-result' % fi.qualname, 'result of self._map only iterated once', fi, c)
                     continue
                 uses = [u for u in ast.walk(fi.node) if isinstance(u, ast.Name) and u.id == name and isinstance(u.ctx, ast.Load) and (u.lineno, u.col_offset) > (c.lineno, c.col_offset)]
+                uses.sort(key=lambda u: (u.lineno, u.col_offset))
+                if uses:      # `name = list(name)` right after the call materialises it just as well
+                    pu = parent(uses[0])
+                    st2 = enclosing_stmt(uses[0])
+                    if isinstance(pu, ast.Call) and isinstance(pu.func, ast.Name) and pu.func.id in ('list', 'tuple', 'asarray', 'array') and isinstance(st2, ast.Assign) and st2.value is pu \
+                            and len(st2.targets) == 1 and isinstance(st2.targets[0], ast.Name) and st2.targets[0].id == name:
+                        ctx.ok('%s#_map-result' % fi.qualname, 'result of self._map materialised with %s(...) before any other use' % pu.func.id, fi, c)
+                        continue
                 random_access = [u for u in uses if (isinstance(parent(u), ast.Subscript) and parent(u).value is u) or
                                  (isinstance(parent(u), ast.Call) and isinstance(parent(u).func, ast.Name) and parent(u).func.id == 'len')]
                 ctx.check(not random_access and len(uses) <= 1, '%s#_map-result' % fi.qualname, 'result of self._map is materialised before it is indexed',
